@@ -21,16 +21,55 @@ theorem find?_after (s : S) (id id' : Int) (f : U → U) (hf : ∀ u, (f u).id =
     · have : ¬ id' = u.id := hid ▸ e
       simp [e, this]
 
+/-- the record `modHP` writes for its target: a dead unit is left alone, any other unit gets
+the clamped new ratio (and the attacker / life bookkeeping of `hpUnit`). -/
+def modHPUnit (u : U) (src : Int) (amt : Rat) (dmg : Bool) : U :=
+  if u.life = .dead then u
+  else hpUnit u src u.hpRatio (clamp01 ((u.currentHP + amt) / u.maxHP)) dmg
+
+theorem modHPUnit_id (u : U) (src : Int) (amt : Rat) (dmg : Bool) : (modHPUnit u src amt dmg).id = u.id := by
+  unfold modHPUnit; split_ifs
+  · rfl
+  · exact hpUnit_id _ _ _ _ _
+theorem modHPUnit_energy (u : U) (src : Int) (amt : Rat) (dmg : Bool) :
+    (modHPUnit u src amt dmg).energy = u.energy := by
+  unfold modHPUnit; split_ifs
+  · rfl
+  · exact hpUnit_energy _ _ _ _ _
+theorem modHPUnit_stance (u : U) (src : Int) (amt : Rat) (dmg : Bool) :
+    (modHPUnit u src amt dmg).stance = u.stance := by
+  unfold modHPUnit; split_ifs
+  · rfl
+  · exact hpUnit_stance _ _ _ _ _
+
 theorem find?_modHP (s : S) (id src : Int) (amt : Rat) (dmg : Bool) (id' : Int) :
     find? (step s (.modHP id src amt dmg)).1 id' =
-      if id' = id then
-        (find? s id).map (fun u => hpUnit u src u.hpRatio (clamp01 ((u.currentHP + amt) / u.maxHP)) dmg)
+      if id' = id then (find? s id).map (fun u => modHPUnit u src amt dmg)
       else find? s id' := by
-  rw [← find?_after s id id'
-    (fun u => hpUnit u src u.hpRatio (clamp01 ((u.currentHP + amt) / u.maxHP)) dmg)
-    (fun u => hpUnit_id u src _ _ dmg)]
   simp only [step]
-  cases find? s id <;> rfl
+  cases h : find? s id with
+  | none =>
+    simp only [Option.map_none]
+    by_cases e : id' = id
+    · subst e; simp [h]
+    · simp [e]
+  | some u =>
+    simp only [Option.map_some]
+    have hid := find?_id h
+    by_cases hd : u.life = .dead
+    · rw [if_pos hd]
+      by_cases e : id' = id
+      · subst e; simp [h, modHPUnit, hd]
+      · simp [e]
+    · rw [if_neg hd]
+      have h' : find? s u.id = some u := hid ▸ h
+      unfold emitHP
+      simp only
+      rw [find?_setUnit' h' (hpUnit_id u src _ _ dmg)]
+      by_cases e : id' = id
+      · subst e; simp [hid, modHPUnit, hd]
+      · have : ¬ id' = u.id := hid ▸ e
+        simp [e, this]
 
 theorem find?_modEnergy (s : S) (id src : Int) (amt : Rat) (id' : Int) :
     find? (step s (.modEnergy id src amt)).1 id' =
@@ -61,5 +100,13 @@ theorem hpUnit_static (u : U) (src : Int) (o n : Rat) (dmg : Bool) :
     (hpUnit u src o n dmg).stancePct = u.stancePct ∧ (hpUnit u src o n dmg).regen = u.regen ∧
     (hpUnit u src o n dmg).regenConv = u.regenConv := by
   unfold hpUnit; split_ifs <;> exact ⟨rfl, rfl, rfl, rfl, rfl⟩
+
+theorem modHPUnit_static (u : U) (src : Int) (amt : Rat) (dmg : Bool) :
+    (modHPUnit u src amt dmg).maxStance = u.maxStance ∧ (modHPUnit u src amt dmg).maxEnergy = u.maxEnergy ∧
+    (modHPUnit u src amt dmg).stancePct = u.stancePct ∧ (modHPUnit u src amt dmg).regen = u.regen ∧
+    (modHPUnit u src amt dmg).regenConv = u.regenConv := by
+  unfold modHPUnit; split_ifs
+  · exact ⟨rfl, rfl, rfl, rfl, rfl⟩
+  · exact hpUnit_static _ _ _ _ _
 
 end Attr
